@@ -180,7 +180,11 @@ fn recovery_positions(log: &[Ev]) -> (BTreeSet<usize>, BTreeSet<usize>) {
 }
 
 /// C17 for one (parser, input): enumerate every fault position.
-pub fn check_c17(w: &World, s: &dyn Sut, toks: &[usize], shape: u8, rng: &mut Rng, st: &mut Stats) -> Vec<Bad> {
+pub fn check_c17(w: &World, s: &dyn Sut, toks: &[usize], shape: u8, _rng: &mut Rng, st: &mut Stats) -> Vec<Bad> {
+    // the sampled (stream fault, action fault) pairs are a function of the input alone, so that
+    // re-executing a failing case (minimiser, replay) samples the same pairs
+    let mut local_rng = Rng::new(simcore::digest(format!("{:?}/{shape}", toks).as_bytes()));
+    let rng = &mut local_rng;
     let var = w.variant(s);
     let spec = w.spec(s);
     let mut bad = Vec::new();
